@@ -158,7 +158,8 @@ class CirclePixelRegion(PixelRegion):
         # in float64: an unsigned integer origin would wrap around
         xy = (np.subtract(self.center.x, origin[0], dtype=float),
               np.subtract(self.center.y, origin[1], dtype=float))
-        radius = self.radius
+        # float: matplotlib doubles the radius in its own dtype
+        radius = float(self.radius)
         mpl_kwargs = self.visual.define_mpl_kwargs(self._mpl_artist)
         mpl_kwargs.update(kwargs)
 
